@@ -122,6 +122,15 @@ def run_C12(ctx):
              nontrivial=lambda c: len(c.get("steps") or []) > 1, has_oracle=True)
 
 
+def run_C15(ctx):
+    corr_run(ctx, "mcopy", ["mcopy", "--n", n_cases(ctx, 1500, 100000)],
+             "Model/Mem.v mcopy_step (memory after, gas charged, errors) vs the MCOPY instruction; (dst,src,len) exhaustive over {0,1,31,32,33,63,64,65,96,100}^3 plus random and out-of-range operands; pre-Cancun forks must reject the byte",
+             nontrivial=lambda c: c.get("result") == "ok", has_oracle=True, oracle_prefix="C15")
+    ref_run(ctx, "tstoreref", ["tstoreref", "--n", n_cases(ctx, 1500, 80000)],
+            "TLOAD/TSTORE programs mixed with calls and reverts: artela-evm under Cancun vs go-ethereum v1.12.0 under Shanghai + EIP-1153 (opcode bytes rewritten), results, gas, post-state incl. transient storage, step streams",
+            nontrivial=lambda c: c.get("transient_ops", 0) >= 1, oracle_prefix="C15")
+
+
 def run_C20(ctx):
     ref_run(ctx, "workscan", ["workscan"], "state reads (counting StateDB) and allocated bytes per journal instruction / Artela precompile call with length fields 2^5..2^16 (2^22 thorough)",
             oracle_prefix="C20")
@@ -308,5 +317,20 @@ PROPS.update({
         "rule": "pairs from the snippet grammar with journal snippets (registration + value/reference change journals, ~12% malformed operands), 13 forks, 20% static frames; non-trivial = at least one journal instruction executed; distinct = distinct code",
         "modelled": ["vm/instructions.go:926-1140", "vm/gas_table.go:224-229", "vm/jump_table.go:1021-1068"],
         "assumptions": [],
+    },
+})
+
+PROPS.update({
+    "C15": {
+        "run": run_C15,
+        "technique": "Coq theorems (MCOPY = memmove, memory size/expansion, gas formula; Cancun table entries from regenerated tables; transient storage restored with the frame) + model correspondence for MCOPY + reference comparison for EIP-1153",
+        "level_text": "Theorems in Coq: for every memory and (dst, src, len) MCOPY's result is byte for byte memmove's (overlap either way, zero length), the required size is max(dst,src)+len (0 for zero length, overflow beyond 2^64), memory grows in words to cover both "
+                      "ranges, the charge is 3 + 3/word + expansion; over the regenerated tables 0x5c-0x5e are undefined before Cancun and TLOAD/TSTORE/MCOPY with the EIP's static gas and stack arity in Cancun, the rest of the Cancun table being Shanghai's; "
+                      "transient storage is part of the state the failing-frame tail restores. MCOPY's model is run against the instruction (exhaustive small operand cube + random + out-of-range); transient storage is compared with go-ethereum v1.12.0 + EIP-1153.",
+        "level_note": COMMON_NOTE + REF_NOTE + "'Empty at the start of each transaction' is geth's StateDB.Prepare (outside the repository): assumed, exercised by the harness. MCOPY has no upstream in v1.12.0: the Coq memmove specification is the oracle.",
+        "rule": "MCOPY: 10^3 exhaustive small operand triples on 128 bytes of memory + random triples (operands up to 5000, huge values 2^32..2^256-1, memory 0..5 words) on Cancun and pre-Cancun forks; non-trivial = the copy succeeded. "
+                "EIP-1153: generated programs (4 contracts, calls of all kinds, reverts, static frames) with extra TSTORE/TLOAD traffic; non-trivial = at least one transient-storage instruction executed",
+        "modelled": ["vm/memory.go Memory.Copy", "vm/memory_table.go memoryMcopy", "vm/gas_table.go memoryGasCost/memoryCopierGas", "vm/eips.go opMcopy/enable5656", "vm/interpreter.go memory expansion"],
+        "assumptions": ["StateDB.Prepare resets transient storage at transaction start (go-ethereum code)"],
     },
 })
